@@ -243,7 +243,7 @@ pub fn run(opts: &Opts) -> Report {
     ];
     let a = Rows;
     crate::props::committed_replays(&a, opts, &mut rep);
-    run_sub(&a, opts, opts.tier.pick(6000, 150_000), &mut rep);
+    run_sub(&a, opts, opts.tier.pick(30_000, 500_000), &mut rep);
     rep
 }
 
